@@ -224,3 +224,83 @@ for _f in ('generic', 'least_squares', 'dual_annealing', 'differential_evolution
     _final_state_contract(_f, False)
 _final_state_contract('generic', True)
 _final_state_contract('least_squares', True)
+
+
+# ---- bounded: the real SciPy solvers (the symbolic contracts above use a havoc-with-callback stand-in for them) -------------------
+def _real_scipy(ct, tier, seed):
+    """every front end is run with the installed SciPy on small problems built with the public API: on return the lens is at
+    result.x, the merit reproduces result.fun, the objective is not worse than at the start, bounded variables are inside their
+    bounds, a marginal-ray solve still holds, and undo() restores the start.  (Differential evolution with multi-process workers
+    is not run here: a forkserver pool inside the checker's own worker pool hung in this sandbox; its contract above is symbolic.)"""
+    import random
+    import time
+    import warnings
+    import numpy as np
+    from pyvc import vc
+    warnings.simplefilter('ignore')
+    np.seterr(all='ignore')
+    t0 = time.time()
+    clauses, fails, cases = {}, [], 0
+
+    def note(cid, ok, detail, inputs):
+        c_ = clauses.setdefault(cid, {'paths': 0, 'proved': 0, 'backends': {}, 'failed': [], 'seconds': 0.0, 'bounded': True})
+        c_['paths'] += 1
+        if ok:
+            c_['proved'] += 1
+            c_['backends']['runtime'] = c_['backends'].get('runtime', 0) + 1
+        else:
+            fails.append({'clause': cid, 'draws': inputs, 'note': detail})
+    fronts = ['generic', 'least_squares', 'dual_annealing', 'differential_evolution']
+    for trial in range(2 if tier == 'quick' else 8):
+        for front in fronts:
+            for with_solve in ((False, True) if front in ('generic', 'least_squares') else (False,)):
+                c = vc.Ctx('num', rng=random.Random(seed * 1009 + trial * 17 + len(front)))
+                try:
+                    lens, v, prob, _t = _problem(c, bounds=True)
+                    if with_solve:
+                        lens.solves.add('marginal_ray_height', 3, 0.0)
+                    om = c.mod('optiland.optimization.optimization')
+                    cls = {'generic': om.OptimizerGeneric, 'least_squares': om.LeastSquares, 'dual_annealing': om.DualAnnealing,
+                           'differential_evolution': om.DifferentialEvolution}[front]
+                    opt = cls(prob)
+                    x_start = [float(np.ravel(var.value)[0]) for var in prob.variables]
+                    b = [var.bounds for var in prob.variables]
+                    if not all(lo <= x <= hi for x, (lo, hi) in zip(x_start, b)):
+                        continue               # SciPy requires a feasible start: not this contract's subject
+                    f_start = float(prob.sum_squared())
+                    if front == 'differential_evolution':
+                        res = opt.optimize(maxiter=3, disp=False, workers=1)
+                    elif front == 'least_squares':
+                        res = opt.optimize(maxiter=30)
+                    elif front == 'dual_annealing':
+                        res = opt.optimize(maxiter=15, disp=False)
+                    else:
+                        res = opt.optimize(maxiter=30, disp=False)
+                except Exception as ex:
+                    if isinstance(ex, (vc.Reject,)):
+                        continue
+                    note('C14.runtime.optimizer_returns', False, '%s raised %s: %s' % (front, type(ex).__name__, str(ex)[:200]), {'front_end': front, 'draws': dict(c.draws)})
+                    continue
+                inputs = {'front_end': front, 'with_solve': with_solve, 'draws': {k: v_ for k, v_ in c.draws.items() if isinstance(v_, (int, float))}}
+                cases += 1
+                xs = [float(np.ravel(var.value)[0]) for var in prob.variables]
+                note('C14.runtime.lens_is_at_the_returned_vector', bool(np.allclose(xs, np.ravel(res.x), rtol=1e-12, atol=1e-12)), '%s vs %s' % (xs, res.x), inputs)
+                f_now = float(prob.sum_squared())
+                f_res = float(np.ravel(res.fun)[0])        # LeastSquares hands SciPy the scalar merit as its single residual: result.fun = [merit]
+                note('C14.runtime.merit_reproduces_the_returned_objective', bool(np.isclose(f_now, f_res, rtol=1e-9, atol=1e-12)), '%s vs %s' % (f_now, f_res), inputs)
+                note('C14.runtime.objective_not_worse_than_at_the_start', f_now <= f_start * (1 + 1e-12) + 1e-15, '%s > %s' % (f_now, f_start), inputs)
+                note('C14.runtime.bounded_variables_within_bounds', all(lo - 1e-12 <= x <= hi + 1e-12 for x, (lo, hi) in zip(xs, b)), '%s in %s' % (xs, b), inputs)
+                if with_solve:
+                    ya, _ = lens.paraxial.marginal_ray()
+                    note('C14.runtime.solve_holds_on_return', abs(float(ya[3, 0])) < 1e-9, 'ya = %s' % float(ya[3, 0]), inputs)
+                opt.undo()
+                back = [float(np.ravel(var.value)[0]) for var in prob.variables]
+                note('C14.runtime.undo_restores_the_start', bool(np.allclose(back, x_start, rtol=1e-12, atol=1e-12)), '%s vs %s' % (back, x_start), inputs)
+    return {'contract': ct.name, 'functions': ct.functions, 'props': ct.props,
+            'symbolic': {'clauses': clauses, 'paths': 0, 'errors': [], 'solver_s': 0.0, 'samples': [], 'wd_assumed': [], 'assumed': []},
+            'numeric': {'accepted': cases, 'rejected': 0, 'failures': fails[:10], 'concolic_agree': 0, 'encoder_mismatches': [],
+                        'samples': [{'front_ends': fronts}]}, 'wall_s': time.time() - t0}
+
+
+contract('C14.runtime.real_scipy', [OPT + ':OptimizerGeneric.optimize', OPT + ':LeastSquares.optimize', OPT + ':DualAnnealing.optimize',
+                                    OPT + ':DifferentialEvolution.optimize', OPT + ':OptimizerGeneric.undo'], ['C14'], custom=_real_scipy)(lambda c: None)
